@@ -35,6 +35,9 @@ type chainCase struct {
 	// TaskOnAdd: an operator tasks every pivot agent at the moment its session appears
 	// (inside the teamserver's AgentAdd call for it)
 	TaskOnAdd bool `json:"task_on_add,omitempty"`
+	// RefusedConnect: before the tasks, the deepest agent reports an SMB connect that names
+	// its own parent (an ancestor that has a parent itself): refused, and nothing changes
+	RefusedConnect bool `json:"refused_connect,omitempty"`
 }
 
 type taskOp struct {
@@ -227,6 +230,31 @@ func runChain(c *lib.Ctx, cs chainCase) (sig, what string) {
 	}
 	w.rec.Take()
 
+	if cs.RefusedConnect && depth >= 2 {
+		d := depth
+		w.req++
+		rig.TaskSimple(r.TS, w.sims[d].Hex(), w.req)
+		w.post(w.up(0)) // hand the task out
+		resp := w.post(w.up(d, demon.SmbConnect(w.req, w.sims[d-1].RegisterBytes())))
+		if resp.Panic != nil {
+			return lib.PanicSig(resp.Panic, resp.Stack), fmt.Sprintf("a connect that names the sender's parent panics: %v", resp.Panic)
+		}
+		w.post(w.up(0))
+		w.rec.Take()
+		for i := 1; i < len(w.sims); i++ {
+			ok := false
+			for _, a := range r.TS.Agents.Agents {
+				if a.NameID == w.sims[i].Hex() && a.Pivots.Parent != nil && a.Pivots.Parent.NameID == w.sims[i-1].Hex() {
+					ok = true
+				}
+			}
+			if !ok {
+				return fmt.Sprintf("chain:broken-by-refused-connect:depth=%d", i), fmt.Sprintf("agent %s (depth %d) reported an SMB connect naming its own parent %s; afterwards agent %s (depth %d) is no longer the child of %s (chain %v)", w.sims[d].Hex(), d, w.sims[d-1].Hex(), w.sims[i].Hex(), i, w.sims[i-1].Hex(), hexIDs(w.sims))
+			}
+		}
+		c.Observe("refused-connects-naming-the-parent", 1)
+	}
+
 	// ---- downward ----
 	for ti, t := range cs.Tasks {
 		tgt := t.Target % len(w.sims)
@@ -360,7 +388,7 @@ func clip(b []byte) []byte {
 
 func gen(rng *rand.Rand) chainCase {
 	depth := 1 + rng.Intn(5)
-	cs := chainCase{Seed: rng.Int63(), TaskOnAdd: rng.Intn(2) == 0}
+	cs := chainCase{Seed: rng.Int63(), TaskOnAdd: rng.Intn(2) == 0, RefusedConnect: rng.Intn(3) == 0}
 	perm := rng.Perm(len(idChoices))
 	for i := 0; i <= depth; i++ {
 		id := idChoices[perm[i]]
